@@ -29,22 +29,33 @@ EXTENDS AEHTMLTok, TLC, Json, FiniteSets
 Obs == ndJsonDeserialize("obs.ndjson")
 
 Undefined(sg) == sg.fin[1] = "undefined" \/ \E k \in 1..Len(sg.toks) : sg.toks[k] = TBAD
-SigOf(o) == Signature(o.out)
+\* All outputs of a record start with the rendering of the same template text: the tokenizer is a
+\* fold, so it is run once over their longest common prefix and resumed from there for each output.
+RECURSIVE Lcp2(_, _, _, _)
+Lcp2(a, b, i, m) == IF i > m \/ i > Len(a) \/ i > Len(b) \/ a[i] # b[i] THEN i - 1 ELSE Lcp2(a, b, i + 1, m)
+RECURSIVE LcpAll(_, _, _, _)
+LcpAll(outs, a, j, m) == IF j > Len(outs) \/ m = 0 THEN m
+                         ELSE IF outs[j].oc # "ok" THEN LcpAll(outs, a, j + 1, m)
+                         ELSE LcpAll(outs, a, j + 1, Lcp2(a, outs[j].out, 1, m))
 
 \* per record, in one pass over its benign entries (each signature is computed once):
 \*   ch = indices j whose output has another structure than their benign partner's,
 \*   un = number of benign entries whose own rendering is outside the reference
+Base(r) == LET oks == SelectSeq(r.outs, LAMBDA o : o.oc = "ok") IN
+           IF oks = <<>> THEN [p |-> 0, h |-> H0]
+           ELSE LET a == oks[1].out p == LcpAll(r.outs, a, 1, Len(a)) IN [p |-> p, h |-> HRunRange(H0, a, 1, p)]
 BenignSeq(r) == SelectSeq([j \in 1..Len(r.outs) |-> j], LAMBDA j : r.outs[j].b = j /\ r.outs[j].oc = "ok")
-RECURSIVE Judge(_, _, _, _)
-Judge(r, bs, i, acc) ==
+RECURSIVE Judge(_, _, _, _, _)
+Judge(r, base, bs, i, acc) ==
   IF i > Len(bs) THEN acc
   ELSE LET b == bs[i]
-           sb == SigOf(r.outs[b])
-       IN IF Undefined(sb) THEN Judge(r, bs, i + 1, [acc EXCEPT !.un = @ + 1])
-          ELSE Judge(r, bs, i + 1,
-                     [acc EXCEPT !.ch = @ \cup {j \in 1..Len(r.outs) : r.outs[j].b = b /\ j # b /\ r.outs[j].oc = "ok" /\ SigOf(r.outs[j]) # sb},
+           sb == SignatureFrom(base.h, base.p, r.outs[b].out)
+       IN IF Undefined(sb) THEN Judge(r, base, bs, i + 1, [acc EXCEPT !.un = @ + 1])
+          ELSE Judge(r, base, bs, i + 1,
+                     [acc EXCEPT !.ch = @ \cup {j \in 1..Len(r.outs) : r.outs[j].b = b /\ j # b /\ r.outs[j].oc = "ok"
+                                                                        /\ SignatureFrom(base.h, base.p, r.outs[j].out) # sb},
                                  !.cmp = @ + Cardinality({j \in 1..Len(r.outs) : r.outs[j].b = b /\ j # b /\ r.outs[j].oc = "ok" /\ r.outs[j].t = 0})])
-Judged(r) == Judge(r, BenignSeq(r), 1, [ch |-> {}, un |-> 0, cmp |-> 0])
+Judged(r) == Judge(r, Base(r), BenignSeq(r), 1, [ch |-> {}, un |-> 0, cmp |-> 0])
 RecOk(r) == \A j \in Judged(r).ch : r.outs[j].t = 1
 
 Sig(r, j) == [fam |-> "autoescape", via |-> r.via, ctx |-> r.pt.ctx, url |-> r.pt.url, slot |-> r.pt.slot, kind |-> r.pt.kind,
